@@ -7,6 +7,9 @@
 (*   calls[j]   <<mint, maxt, maxres, ok, sel>>: one getFor call on that   *)
 (*              set; sel = ids of the returned blocks in returned order    *)
 (*              (-1: a block that was never added); ok = 0: it panicked    *)
+(*   mcalls[j]  the same with block matchers of request hints:             *)
+(*              <<mint, maxt, maxres, ok, sel, allowed>>, allowed = ids of *)
+(*              the blocks that match                                      *)
 (* Every call is judged with the property-level operator Judge of          *)
 (* BlockSet (the four clauses of the statement, on the real timestamps).   *)
 (***************************************************************************)
@@ -19,15 +22,21 @@ JudgeCall(blocks, c) ==
     IF c[4] = 0 THEN {"returns-a-selection"}       \* the statement presupposes that a selection is returned
     ELSE Judge(blocks, QueryOf(c), c[5])
 
+MQueryOf(c) == [mint |-> c[1], maxt |-> c[2], maxres |-> c[3], allowed |-> Range(c[6])]
+JudgeMCall(blocks, c) == IF c[4] = 0 THEN {"returns-a-selection"} ELSE Judge(blocks, MQueryOf(c), c[5])
+DriftMCall(blocks, c) == c[4] = 1 /\ c[3] >= 0 /\ BagOf(c[5]) # BagOf(GetFor(blocks, MQueryOf(c)))
+
 JudgeLine(e) ==
     LET blocks == BlocksOf(e) IN
     (IF e.adderr = "" THEN {} ELSE {"layout-accepted-by-add"})
     \cup UNION { JudgeCall(blocks, e.calls[j]) : j \in DOMAIN e.calls }
+    \cup UNION { JudgeMCall(blocks, e.mcalls[j]) : j \in DOMAIN e.mcalls }
 
 (* Model conformance (never a verdict): the algorithm-level GetFor predicts the same multiset    *)
 (* of blocks (order among blocks with identical ranges is unspecified in the code).              *)
 DriftCall(blocks, c) == c[4] = 1 /\ c[3] >= 0 /\ BagOf(c[5]) # BagOf(GetFor(blocks, QueryOf(c)))
-Drift(e) == LET blocks == BlocksOf(e) IN \E j \in DOMAIN e.calls : DriftCall(blocks, e.calls[j])
+Drift(e) == LET blocks == BlocksOf(e) IN \/ \E j \in DOMAIN e.calls : DriftCall(blocks, e.calls[j])
+                                         \/ \E j \in DOMAIN e.mcalls : DriftMCall(blocks, e.mcalls[j])
 
 VARIABLE l
 TraceInit == l = 1
